@@ -1,10 +1,12 @@
 package main
 
 import (
+	"context"
 	"encoding/hex"
 	"fmt"
 	"reflect"
 	"strings"
+	"time"
 
 	"github.com/open2b/scriggo"
 	"github.com/open2b/scriggo/native"
@@ -58,6 +60,9 @@ func (r *scResult) outcome() string {
 	if r.hostPanic != "" {
 		return out + "host-panic:" + r.hostPanic
 	}
+	if r.runErr == context.DeadlineExceeded {
+		return out + "timeout"
+	}
 	if r.runErr != nil {
 		return out + "panic:" + panicClass(r.runErr.Error())
 	}
@@ -79,7 +84,11 @@ func panicClass(msg string) string {
 
 func buildScriggo(src string, out *strings.Builder) (*scriggo.Program, error) {
 	pkgs := native.Packages{"t": native.Package{Name: "t", Declarations: native.Declarations{
-		"P": func(args ...interface{}) { renderP(out, args) },
+		"P": func(args ...interface{}) {
+			if out.Len() < 1<<20 { // a runaway program does not fill the memory
+				renderP(out, args)
+			}
+		},
 	}}}
 	return scriggo.Build(scriggo.Files{"go.mod": []byte("module m\n"), "main.go": []byte(src)}, &scriggo.BuildOptions{Packages: pkgs})
 }
@@ -98,8 +107,11 @@ func runScriggo(src string) *scResult {
 		r.asm = string(asm)
 	}
 	r.funcs = verifhook.DumpFunctions(prog.VerifFunction())
+	// a changed VM or emitter may loop for ever: every run has a deadline
+	ctx, cancel := context.WithTimeout(context.Background(), 2*time.Second)
+	defer cancel()
 	r.hostPanic = PanicText(func() {
-		r.runErr = prog.Run(nil)
+		r.runErr = prog.Run(&scriggo.RunOptions{Context: ctx})
 	})
 	r.out = out.String()
 	return r
